@@ -112,8 +112,21 @@ func (in *Interp) branch(c *Term, why string) bool {
 	p.newWork = append(p.newWork, alt)
 	p.taken = append(p.taken, dec{D: 1, N: 2})
 	in.assert(c)
+	if WhyHist != nil {
+		w := why
+		if in.cur != nil && in.cur.top != nil {
+			w += " @ " + in.cur.top.fn.String()
+		}
+		whyMu.Lock()
+		WhyHist[w]++
+		whyMu.Unlock()
+	}
 	return true
 }
+
+// WhyHist (debugging): histogram of two-sided decisions by reason and function.
+var WhyHist map[string]int
+var whyMu sync.Mutex
 
 func (in *Interp) branchAt(c *Term, site ssa.Instruction) bool {
 	if c.IsConst() {
@@ -158,6 +171,15 @@ func (in *Interp) choose(n int, why string) int {
 		p.newWork = append(p.newWork, alt)
 	}
 	p.taken = append(p.taken, dec{D: 0, N: int32(n)})
+	if WhyHist != nil {
+		w := fmt.Sprintf("choose%d:%s", n, why)
+		if in.cur != nil && in.cur.top != nil {
+			w += " @ " + in.cur.top.fn.String()
+		}
+		whyMu.Lock()
+		WhyHist[w]++
+		whyMu.Unlock()
+	}
 	return 0
 }
 
